@@ -39,12 +39,26 @@ LEVEL_NOTE = "Trusted: the fresh-server replies (same code, isolated), oracle.re
 CFGS = [(2.0, "own"), (1.0, "own"), (2.0, "DEFAULT")]
 
 
+def _hidden_class():
+    class Ticket(object):
+        """A class no module path leads to (defined in a function) and that no Config knows."""
+        def __init__(self, n=0):
+            self.n = n
+    return Ticket
+
+
+HIDDEN = _hidden_class()
+
+
 def make_fixture(cfg):
     import jsonrpclib.config as cm
     v, which = cfg
+    # a method whose result holds an object of a class the server's Config has never heard of: answering must not
+    # teach it to the Config (serving leaves no trace)
+    extra = {"ticket": lambda n=0: {"ticket": HIDDEN(n), "n": n}}
     if which == "DEFAULT":
-        return dm.Fixture(dm.std_reg("default"), version=cm.DEFAULT.version, config=cm.DEFAULT)
-    return dm.Fixture(dm.std_reg("default"), version=v)
+        return dm.Fixture(dm.std_reg("default"), version=cm.DEFAULT.version, config=cm.DEFAULT, extra=extra)
+    return dm.Fixture(dm.std_reg("default"), version=v, extra=extra)
 
 
 BEANS = [{"__jsonclass__": ["decimal.Decimal", ["1.5"]]}, {"__jsonclass__": ["fractions.Fraction", [1, 3]]},
@@ -64,6 +78,11 @@ def gen_body(rng):
         if rng.random() < 0.7:
             e["jsonrpc"] = "2.0"
         return json.dumps(e if rng.random() < 0.7 else [e, reqgen.entry_of("call", rng)])
+    if r < 0.14:
+        e = {"method": "ticket", "id": rng.choice([3, "t"]), "params": [rng.randrange(5)]}
+        if rng.random() < 0.5:
+            e["jsonrpc"] = "2.0"
+        return json.dumps(e if rng.random() < 0.7 else [reqgen.entry_of("call", rng), e])
     if r < 0.55:
         kind = rng.choice(["call", "call", "notification", "failing", "unknown", "badargs", "invalid", "unconvertible"])
         return json.dumps(reqgen.entry_of(kind, rng))
